@@ -232,7 +232,7 @@ impl World {
         e["ret"] = ret.to_json();
         e["panic"] = json!(ret.is_panic());
         match ret {
-            Ret::Err(s) | Ret::Panic(s) => e["text"] = json!(s),
+            Ret::Err(s) | Ret::Panic(s) => e["msg"] = json!(s),
             _ => {}
         }
         e["same"] = json!(same);
